@@ -192,7 +192,8 @@ class Ctx:
                 _init_worker(self.modname, False)
             it = map(_run_chunk, chunks)
         else:
-            it = self.pool().imap_unordered(_run_chunk, chunks)
+            it = self._watched(self.pool().imap_unordered(_run_chunk,
+                                                          chunks), fam)
         for part in it:
             for idx, r in part:
                 results[idx] = r
@@ -241,6 +242,37 @@ class Ctx:
         sys.stderr.write("[%s] %-28s %7d cases %6.1fs viol=%d\n" % (
             self.prop, fam, n, time.time() - t0, st["viol"]))
         return results
+
+    def _watched(self, it, fam):
+        """multiprocessing.Pool silently drops the chunk of a worker that
+        dies (segmentation fault, abort after heap corruption) and then waits
+        for it for ever; a dead-locked worker does the same.  Neither is an
+        observation this harness can attribute to a case, so both end the
+        check as a harness failure (exit 2) instead of hanging."""
+        stall = float(os.environ.get("VERIF_STALL_S", "3600"))
+        pids = sorted(p.pid for p in self._pool._pool)
+        last = time.time()
+        while True:
+            try:
+                part = it.next(timeout=20)
+            except StopIteration:
+                return
+            except mp.TimeoutError:
+                now = sorted(p.pid for p in self._pool._pool)
+                why = None
+                if now != pids:
+                    why = ("a worker process died (the library crashed the "
+                           "interpreter)")
+                elif time.time() - last > stall:
+                    why = "no worker finished a chunk for %d s" % stall
+                if why:
+                    self._pool.terminate()
+                    self._pool = None
+                    raise RuntimeError("%s while exploring family %s" %
+                                       (why, fam))
+                continue
+            last = time.time()
+            yield part
 
     def close(self):
         if self._pool is not None:
